@@ -54,15 +54,17 @@ def download_license(spdx_identifier: str) -> str:
 
 def _path_to_license_file(spdx_identifier: str, project: Project) -> Path:
     root: Optional[Path] = project.root
-    # Hack
+    # Hack: without a VCS, the root of a project is wherever the command is
+    # run. Run in LICENSES/, that directory is meant, not LICENSES/LICENSES/.
+    # It is the root that is called so, whatever the working directory is.
     if (
         root
         and root.name == "LICENSES"
         and isinstance(project.vcs_strategy, VCSStrategyNone)
     ):
-        root = None
-
-    licenses_path = find_licenses_directory(root=root)
+        licenses_path = root
+    else:
+        licenses_path = find_licenses_directory(root=root)
     return licenses_path / "".join((spdx_identifier, ".txt"))
 
 
